@@ -11,7 +11,7 @@ pub fn def() -> CheckDef {
         meta: CheckMeta {
             id: "C07",
             level: "exploration",
-            rule: "single write transactions of 1-60 generated operations (puts, deletes, delete runs that empty first/middle/last leaves, bucket creations and deletions) over every starting shape (fresh, one-, two-, three-level committed buckets, mixed key/sub-bucket buckets). After EVERY operation the whole read API of each touched bucket and its ancestors is compared with the model overlay: get/get_kv for every model key and derived absent keys, full cursor scan (+ next() after the end), seek samples on fresh cursors and along one long-lived cursor that is re-seeked without being drained, range samples with every bound kind, buckets(), kv_pairs(), next_int, Tx::buckets(); the transaction is then committed (or rolled back) and the committed view re-checked. Non-trivial = transaction on a bucket of height >= 2 with at least one delete and one insert. Distinct = hash of the case.",
+            rule: "single write transactions of 1-60 generated operations (puts, deletes, delete runs that empty first/middle/last leaves, bucket creations and deletions) over every starting shape (fresh, one-, two-, three-level committed buckets, mixed key/sub-bucket buckets). After EVERY operation the whole read API of each touched bucket and its ancestors is compared with the model overlay: get/get_kv for every model key and derived absent keys, full cursor scan (+ next() after the end), seek samples on fresh cursors and along one long-lived cursor that is re-seeked without being drained, range samples with every bound kind, buckets(), kv_pairs(), next_int, Tx::buckets(); around every key-level operation five iterators (ranges with an included / excluded start, a cursor) are obtained before the operation and consumed after it: they must yield the entries of the state after the operation or of the state before it, nothing else; the transaction is then committed (or rolled back) and the committed view re-checked. Non-trivial = transaction on a bucket of height >= 2 with at least one delete and one insert. Distinct = hash of the case.",
             assumptions: &["reference model overlay = clone of the committed model with the transaction's operations applied"],
         },
         shard,
@@ -46,6 +46,9 @@ fn shard(ctx: &ShardCtx, known: &Known) -> ShardOut {
         }
         if s.bucket_deletes > 0 {
             classes.push("bucket delete in tx".to_string());
+        }
+        if s.early_iters > 0 {
+            classes.push("iterators obtained before an operation, consumed after it".to_string());
         }
         if case.txs.last().map(|t| t.kind == TxKind::Rollback).unwrap_or(false) {
             classes.push("rolled back".to_string());
